@@ -180,3 +180,21 @@ Definition evenodd :=
        (TVar 0).
 Example even7 : evaluate 400 evenodd = Some TFalse.
 Proof. vm_compute. reflexivity. Qed.
+
+(* the three possible outcomes of running a term: still running, a value, or stuck at a classified redex *)
+Lemma evaluate_end : forall f t v, evaluate f t = Some v -> step v = None.
+Proof.
+  induction f as [|f IH]; intros t v H; cbn [evaluate] in H; [discriminate|].
+  destruct (step t) as [t'|] eqn:S; [eauto|]. now injection H as <-.
+Qed.
+
+Theorem outcome_classified : forall f t,
+  evaluate f t = None \/
+  exists v, evaluate f t = Some v /\
+    (is_value v = true \/
+     exists E r k, ectx_ok E = true /\ v = plug E r /\ stuck_redex r k /\ stuck_reason v = Some k).
+Proof.
+  intros f t. destruct (evaluate f t) as [v|] eqn:Ev; [right|left; reflexivity].
+  exists v. split; [reflexivity|]. destruct (is_value v) eqn:V; [left; reflexivity|right].
+  apply stuck_classified; [eapply evaluate_end; eauto | exact V].
+Qed.
